@@ -4,6 +4,7 @@ import zlib
 
 _L = threading.Lock()
 _T: dict = {}
+OP_FAULT = [None]  # optional callable run at the start of every operator / truth test (fault injection into operator nodes)
 YIELD_IN_BOOL = [0]  # seconds to sleep inside Sym.__bool__ (0 = off)
 
 
@@ -45,6 +46,8 @@ class Sym:
         return self.h
 
     def __bool__(self):
+        if OP_FAULT[0] is not None:
+            OP_FAULT[0]()
         if YIELD_IN_BOOL[0]:
             # concurrency workloads: evaluating the truthiness of a value (an activation flag) is a pre-emption point
             import time
@@ -79,6 +82,8 @@ def _rebuild(key):
 
 def _bin(op):
     def f(a, b):
+        if OP_FAULT[0] is not None:
+            OP_FAULT[0]()
         return Sym(op, a, b)
 
     return f
@@ -91,7 +96,7 @@ for _op in ARI + CMP:
     if _op not in CMP:
         setattr(Sym, "__r%s__" % _op, _bin("r" + _op))
 for _op in "neg pos abs invert".split():
-    setattr(Sym, "__%s__" % _op, (lambda o: lambda a: Sym(o, a))(_op))
+    setattr(Sym, "__%s__" % _op, (lambda o: lambda a: (OP_FAULT[0]() if OP_FAULT[0] is not None else None, Sym(o, a))[1])(_op))
 
 
 def same(a, b):
